@@ -70,13 +70,18 @@ func TestC13(t *testing.T) {
 	run.Assume("cache.LRUCache reads time.Now() directly: expiry is only judged in the sound direction after a real sleep > TTL")
 	run.Assume("callers of BlobMemoryCache follow its documented protocol (Add only after a successful TryReserve of the entry's size); the CAStore is the caller under judgement in part B")
 
-	partASequential(run)
-	partAConcurrent(run)
-	partBSequential(t, run)
-	partBConcurrent(t, run)
-	partCModel(run)
-	partCExpiry(run)
-	partCConcurrent(run)
+	timed := func(name string, f func()) {
+		t0 := time.Now()
+		f()
+		run.Set("wall_s_"+name, time.Since(t0).Seconds())
+	}
+	timed("A_sequential", func() { partASequential(run) })
+	timed("A_concurrent", func() { partAConcurrent(run) })
+	timed("B_sequential", func() { partBSequential(t, run) })
+	timed("B_concurrent", func() { partBConcurrent(t, run) })
+	timed("C_model", func() { partCModel(run) })
+	timed("C_expiry", func() { partCExpiry(run) })
+	timed("C_concurrent", func() { partCConcurrent(run) })
 }
 
 func skip(run *ev.Run, caseID string) bool {
@@ -160,7 +165,7 @@ func pickSize(r *rand.Rand, m *cacheModel) uint64 {
 var aNames = []string{"a", "b", "c", "d", "e", "f", "g", "h"}
 
 func partASequential(run *ev.Run) {
-	n := run.N(1500, 60000)
+	n := run.N(1500, 40000)
 	steps := 70
 	for i := 0; i < n; i++ {
 		caseID := fmt.Sprintf("A-seq/%d", i)
@@ -347,7 +352,7 @@ func partASequential(run *ev.Run) {
 }
 
 func partAConcurrent(run *ev.Run) {
-	n := run.N(30, 600)
+	n := run.N(30, 400)
 	const G = 8
 	for i := 0; i < n; i++ {
 		caseID := fmt.Sprintf("A-conc/%d", i)
@@ -685,7 +690,7 @@ func (e *storeEnv) checkBalance() (string, map[string]uint64, bool) {
 }
 
 func partBSequential(t *testing.T, run *ev.Run) {
-	n := run.N(160, 4000)
+	n := run.N(120, 2500)
 	root := ev.TempDir(t, "c13-")
 	workers := 8
 	var wg sync.WaitGroup
@@ -723,6 +728,10 @@ func oneBSequential(t *testing.T, run *ev.Run, root, caseID string, i int) {
 	var ops []bOp
 	var memPath, special int
 	var lastInMem *bWrite
+	// settled: no drain item can be in flight in the worker, so TotalBytes
+	// cannot drop while a write runs. A clock tick hands an item to the worker
+	// asynchronously; drainAll re-establishes it.
+	settled := true
 	steps := 24
 	violated := false
 	report := func(sig string, detail interface{}) {
@@ -778,14 +787,17 @@ func oneBSequential(t *testing.T, run *ev.Run, root, caseID string, i int) {
 			after = class
 			// reservation decision (sequential, nothing else reserving): an
 			// honest successful write goes to memory iff it fits the budget.
-			if class == "ok" && !already && err == nil {
+			if settled && (class == "ok" || class == "denied") {
+				run.Count("B_reservation_decisions_checked", 1)
+			}
+			if settled && class == "ok" && !already && err == nil {
 				fits := w.claimed <= max-min64(tb0, max)
 				if inMem != fits {
 					report("castore-writethrough/reservation-decision-mismatch", map[string]interface{}{"fits": fits, "inmem": inMem, "total_before": tb0, "size": w.claimed})
 					continue
 				}
 			}
-			if class == "denied" && inMem {
+			if settled && class == "denied" && inMem {
 				report("castore-writethrough/admitted-over-budget", map[string]interface{}{"total_before": tb0, "size": w.claimed})
 				continue
 			}
@@ -803,11 +815,13 @@ func oneBSequential(t *testing.T, run *ev.Run, root, caseID string, i int) {
 				run.Inconclusive("C13 B: drainAll watchdog")
 				return
 			}
+			settled = true
 			ops = append(ops, bOp{Op: "drainAll"})
 			run.Count("B_drainAll", 1)
 			after = "drain"
 		case k < 94:
 			env.advance(100*time.Millisecond + time.Millisecond)
+			settled = false
 			ops = append(ops, bOp{Op: "tick"})
 			run.Count("B_tick", 1)
 			after = "tick"
@@ -827,6 +841,7 @@ func oneBSequential(t *testing.T, run *ev.Run, root, caseID string, i int) {
 			if n1, q1 := env.mc.NumEntries(), env.cas.VerifC13DrainQueueLen(); n1 < n0 && q1 >= q0 {
 				run.Count("B_entries_removed_by_ttl_before_drain", int64(n0-n1))
 			}
+			settled = false
 			ops = append(ops, bOp{Op: "ttl"})
 			run.Count("B_ttl", 1)
 			after = "ttl"
@@ -870,7 +885,7 @@ func min64(a, b uint64) uint64 {
 // real worker through clock ticks plus direct drain steps. Two variants: only
 // classes whose stream length equals the reserved size, and all classes.
 func partBConcurrent(t *testing.T, run *ev.Run) {
-	n := run.N(10, 200)
+	n := run.N(6, 60)
 	root := ev.TempDir(t, "c13c-")
 	for i := 0; i < n; i++ {
 		for _, variant := range []string{"honest-lengths", "with-length-mismatch"} {
@@ -1017,7 +1032,7 @@ func (m *lruModel) del(k string) {
 }
 
 func partCModel(run *ev.Run) {
-	n := run.N(2500, 150000)
+	n := run.N(2500, 60000)
 	for i := 0; i < n; i++ {
 		caseID := fmt.Sprintf("C-model/%d", i)
 		if skip(run, caseID) {
@@ -1098,7 +1113,7 @@ func partCModel(run *ev.Run) {
 // every key added before the sleep must be reported absent, whatever was
 // refreshed or evicted before.
 func partCExpiry(run *ev.Run) {
-	n := run.N(16, 200)
+	n := run.N(16, 100)
 	var wg sync.WaitGroup
 	for i := 0; i < n; i++ {
 		caseID := fmt.Sprintf("C-ttl/%d", i)
@@ -1142,7 +1157,7 @@ func partCExpiry(run *ev.Run) {
 }
 
 func partCConcurrent(run *ev.Run) {
-	n := run.N(20, 400)
+	n := run.N(20, 300)
 	const G = 8
 	for i := 0; i < n; i++ {
 		caseID := fmt.Sprintf("C-conc/%d", i)
